@@ -424,6 +424,12 @@ class DemoStorage(ConflictResolvingStorage):
 
         with self._lock:
             self._transaction = transaction
+            if not a and 'tid' not in k:
+                # The changes storage does not know the base: make sure
+                # that the new transaction is later than the base's last.
+                last = self.base.lastTransaction()
+                if last > self.changes.lastTransaction():
+                    a = (ZODB.utils.newTid(last),)
             self.changes.tpc_begin(transaction, *a, **k)
             self._stored_oids = set()
             del self._resolved[:]
